@@ -45,6 +45,19 @@ class PermRecorder:
         return np.array(out, dtype=arr.dtype)
 
 
+def with_layout(a, layout):
+    """the same values in another memory layout (C-contiguous, Fortran-ordered, a strided view, a transposed view)"""
+    if layout == "F":
+        return np.asfortranarray(a)
+    if layout == "strided":
+        big = np.zeros(a.shape[:-1] + (a.shape[-1] * 2,), dtype=a.dtype)
+        big[..., ::2] = a
+        return big[..., ::2]
+    if layout == "transposed" and a.ndim == 2:
+        return np.ascontiguousarray(a.T).T
+    return a
+
+
 def values(ints, den, off, spow):
     return [(Fraction(v, den) + off) * Fraction(2) ** spow for v in ints]
 
@@ -207,7 +220,8 @@ class C14(Prop):
             return {"kind": "shuffle", "shape": shape, "block": block, "x": xs, "mask": mask["data"],
                     "mask_float": rng.random() < 0.3, "mode": rng.choice(["pad", "inplace"]),
                     "partial": rng.random() < 0.5, "perm": rng.choice(["random", "random", "random", "identity", "reverse", "rotate", "swap2"]),
-                    "pseed": rng.randrange(10 ** 9), "gen": ["mask:" + mask["kind"]]}
+                    "pseed": rng.randrange(10 ** 9), "gen": ["mask:" + mask["kind"]],
+                    "layout": rng.choice(["C", "C", "C", "F", "strided", "transposed"]), "mask_layout": rng.choice(["C", "C", "F"])}
         b = rng.choice([1, 2, 2, 3, 3, 4, 5])
         shape = [rng.randint(max(2, b), 16), rng.randint(max(2, b), 16)]
         if rng.random() < 0.4:
@@ -224,7 +238,8 @@ class C14(Prop):
         return {"kind": "prob", "shape": shape, "x": x, "y": y, "den": rng.choice([1, 4]),
                 "mask": None if rng.random() < 0.25 else mk["data"], "block": b, "partial": rng.random() < 0.5,
                 "n": rng.randint(1, 6), "perm": rng.choice(["random"] * 14 + ["identity", "reverse"]),
-                "pseed": rng.randrange(10 ** 9), "gen": [style, "mask:" + mk["kind"]]}
+                "pseed": rng.randrange(10 ** 9), "gen": [style, "mask:" + mk["kind"]],
+                "layout": rng.choice(["C", "C", "F", "strided"]), "mask_layout": rng.choice(["C", "C", "F"])}
 
     def gen_xpow(self, rng):
         kind = rng.choice(["same", "same", "same", "opposite", "one", "mixed", "mixed", "beyond"])
@@ -430,9 +445,12 @@ class C14(Prop):
 
         shape, block = case["shape"], case["block"]
         pad = case["mode"] == "pad"
-        x = np.array(case["x"], dtype=np.float64).reshape(shape)
-        mask = np.array(case["mask"], dtype=np.float64 if case["mask_float"] else bool).reshape(shape)
+        x = with_layout(np.array(case["x"], dtype=np.float64).reshape(shape), case.get("layout", "C"))
+        mask = with_layout(np.array(case["mask"], dtype=np.float64 if case["mask_float"] else bool).reshape(shape), case.get("mask_layout", "C"))
         x0, m0 = x.copy(), mask.copy()
+        # memory layout is part of the input: view_as_blocks copies a working array that is not C-contiguous (np.pad keeps
+        # Fortran order), and then the block assignment is lost; the model takes this as the flag `aliases`
+        aliases = bool(not x.flags.fnc) if pad else bool(x.flags.c_contiguous)
         rec = PermRecorder(case["pseed"], case["perm"])
         saved = np.random.permutation
         np.random.permutation = rec
@@ -455,7 +473,7 @@ class C14(Prop):
         good = "raises" not in impl and impl["shape"] == shape
         nidx = rec.calls[0][1] if len(rec.calls) == 1 else None
         rep = ctx.driver.call("c14.shuffle", n0=n0, n1=n1, x=[core.rat(v) for v in x0.ravel()], mask=[bool(v) for v in m0.ravel()],
-                              b0=b0, b1=b1, pad=pad, partial=case["partial"], nidx=nidx,
+                              b0=b0, b1=b1, pad=pad, partial=case["partial"], nidx=nidx, aliases=aliases,
                               out=[core.rat(v) for v in impl["out"]] if good else None)
         idx = rep["idx"]
         model = {"shape": shape, "out": None if rep["model"] is None else [float(unrat(v)) for v in rep["model"]],
@@ -479,6 +497,7 @@ class C14(Prop):
         feats = {"shuffle", f"ndim{len(shape)}", "mode:" + case["mode"], "partial:" + str(case["partial"]), "perm:" + case["perm"],
                  "maskdtype:" + ("float" if case["mask_float"] else "bool")} | set(case.get("gen", []))
         feats.add("selected:" + (str(len(idx)) if len(idx) < 3 else "3+"))
+        feats.add("layout:" + case.get("layout", "C") + ("" if aliases else "(block view is a copy: result unshuffled)"))
         mult = [s % b == 0 for s, b in zip(shape, block)]
         feats.add("shape:" + ("multiple" if all(mult) else "non-multiple"))
         if any(s < b for s, b in zip(shape, block)):
@@ -487,7 +506,7 @@ class C14(Prop):
             feats.add("block1")
         if good and not same_rng_use:
             feats.add("rng-used-differently(model output not compared)")
-        moved = nidx is not None and nidx != idx
+        moved = nidx is not None and nidx != idx and aliases
         if moved:
             feats.add("moved")
         nontrivial = moved or not all(mult) or case.get("gen", [""])[0] not in ("mask:full",)
@@ -501,6 +520,9 @@ class C14(Prop):
         x = to_arr(values(case["x"], case["den"], 0, 0), shape)
         y = to_arr(values(case["y"], case["den"], 0, 0), shape)
         mask = None if case["mask"] is None else np.array(case["mask"], dtype=bool).reshape(shape)
+        x, y = with_layout(x, case.get("layout", "C")), with_layout(y, case.get("layout", "C"))  # y.copy() is C-ordered again
+        if mask is not None:
+            mask = with_layout(mask, case.get("mask_layout", "C"))
         x0, y0, m0 = x.copy(), y.copy(), None if mask is None else mask.copy()
         rec = PermRecorder(case["pseed"], case["perm"])
         saved = np.random.permutation
